@@ -17,7 +17,6 @@ Helper lemmas only; the property statements are in `Properties/C10.lean`.
 
 open Complex Matrix
 namespace Qib.Fermi
-open Qib.Pauli (natOfBits natOfBits_lt bitsOfIdx bitsOfIdx_natOfBits bitAt bitAt_natOfBits tens)
 
 /-! ### tabulated matrices -/
 
@@ -162,8 +161,8 @@ theorem createMat_n (L i : ℕ) : (createMat L i).n = 2 ^ L := kronFold_n _ (sit
 
 theorem siteI_get (a b : Bool) : ((siteI.get a.toNat b.toNat : ℤ) : ℂ) = (1 : Matrix Bool Bool ℂ) a b := by
   cases a <;> cases b <;> simp [siteI, IMat.get_ofFn]
-theorem siteZ_get (a b : Bool) : ((siteZ.get a.toNat b.toNat : ℤ) : ℂ) = Qib.Pauli.pauliZ a b := by
-  cases a <;> cases b <;> simp [siteZ, IMat.get_ofFn, Qib.Pauli.pauliZ]
+theorem siteZ_get (a b : Bool) : ((siteZ.get a.toNat b.toNat : ℤ) : ℂ) = pauliZ a b := by
+  cases a <;> cases b <;> simp [siteZ, IMat.get_ofFn, pauliZ]
 theorem siteU_get (a b : Bool) : ((siteU.get a.toNat b.toNat : ℤ) : ℂ) = siteUm a b := by
   cases a <;> cases b <;> simp [siteU, IMat.get_ofFn, siteUm]
 
